@@ -823,6 +823,29 @@ def _run(res):
         a, d, _r = check_batch(res, batch, "exhaustive")
         agree_all.append(a)
         detail_all.append(d)
+    # 1b. lock-step recorders and a re-scan: two channels whose files carry the same time stamps; some of their files are
+    #     tracked; one more file of the first channel is written behind the handler's back and then reported in ONE sorted
+    #     batch together with the (already tracked) file of the same time of the other channel -- every subset of three
+    #     earlier files, both sizes, both size limits
+    batch = []
+    for ga in (1, 2):
+        gb = 3 - ga
+        if key_of(0, ga) != key_of(0, gb):
+            continue
+        pre_all = [(gb, key_of(0, gb), 0), (gb, key_of(1, gb), 0), (ga, key_of(1, ga), 0)]
+        for limit in (500, 800):
+            for mask in range(1, 8):
+                for sz in itertools.product((100, 250), repeat=2):
+                    ops = list(props_ops())
+                    for j, p in enumerate(pre_all):
+                        if mask >> j & 1:
+                            ops += [("W", p, sz[j % 2]), ("C", p)]
+                    late = (ga, key_of(0, ga), 0)
+                    ops += [("W", late, sz[1]), ("A", [late, pre_all[0]], True), ("S", "CUR")]
+                    batch.append(((limit, None, None), ops))
+    a, d, _r = check_batch(res, batch, "lock-step")
+    agree_all.append(a)
+    detail_all.append(d)
     # 2. long random histories
     nh = 60 if quick else 1500
     batch = []
